@@ -34,6 +34,11 @@ def by_name(name):
     raise KeyError(name)
 
 
+def val(x, dtype):
+    """a case value: a number, or [num, den] = a quotient formed in the working precision (not representable in a lower one)"""
+    return dtype(x[0]) / dtype(x[1]) if isinstance(x, (list, tuple)) else dtype(x)
+
+
 def eps_of(dt):
     return float(np.finfo(dt).eps)
 
@@ -91,7 +96,7 @@ def rk_case(case):
     shape = tuple(case["shape"])
     f, L = problems.make_rhs(case["rhs"], shape, case["seed"])
     y = problems.initial_state(shape, dtype, case["seed"])
-    t = dtype(case["t"]); h = dtype(case["h"])
+    t = val(case["t"], dtype); h = val(case["h"], dtype)
     probe = M(shape, dtype=np.dtype(dtype))
     implicit = bool(probe.is_implicit)
     rhs = de.DiffRHS(f)
@@ -127,7 +132,7 @@ def rk_case(case):
         else:
             # call "rev": the SAME object steps back with -h of exactly the same magnitude from where call 1 ended (anything cached per step size
             # must not survive the change of sign)
-            trev = tcur + dT; yrev = (ycur + dY).astype(dtype); hrev = -dtype(case["h"])
+            trev = tcur + dT; yrev = (ycur + dY).astype(dtype); hrev = -val(case["h"], dtype)
             try:
                 new_dt, (dTr, dYr) = m(rhs, trev, yrev, {}, hrev)
             except Exception:
@@ -137,7 +142,7 @@ def rk_case(case):
             check_rk_state(r, m, M, f, L, trev, yrev, hrev, dTr, dYr, dtype, dict(case, call="rev"), tol_newton=tn, label=" (call rev, -h after +h)")
             # call 2: the SAME integrator object is asked for a step from an unrelated (t, y) with another h:
             # the property holds for any time, state and step, not only for the continuation of the previous call
-            tcur = dtype(case["t"]) + dtype(0.75); ycur = (y * dtype(0.5) + dtype(0.25)).astype(dtype); h = dtype(-0.5) * dtype(case["h"])
+            tcur = val(case["t"], dtype) + dtype(0.75); ycur = (y * dtype(0.5) + dtype(0.25)).astype(dtype); h = dtype(-0.5) * val(case["h"], dtype)
             try:
                 new_dt, (dT, dY) = m(rhs, tcur, ycur, {}, h)
             except Exception:
@@ -160,7 +165,7 @@ def split_case(case):
     n = shape[0]
     f, L = problems.make_rhs(case["rhs"], shape, case["seed"])
     y = problems.initial_state(shape, dtype, case["seed"])
-    t = dtype(case["t"]); h = dtype(case["h"])
+    t = val(case["t"], dtype); h = val(case["h"], dtype)
     if case["mask"] == "default":
         mk = None
         kick = np.zeros(shape); kick[n // 2:] = 1
@@ -191,7 +196,7 @@ def split_case(case):
         if call == 0:
             tcur = tcur + dT; ycur = ycur + dY
         else:
-            tcur = dtype(case["t"]) + dtype(0.75); ycur = (y * dtype(0.5) + dtype(0.25)).astype(dtype)
+            tcur = val(case["t"], dtype) + dtype(0.75); ycur = (y * dtype(0.5) + dtype(0.25)).astype(dtype)
     r.out(("split", case["method"], case["dtype"], case["mask"], case["rhs"]))
     return r
 
@@ -237,7 +242,7 @@ def script_case(case):
     sc = Scripted(case["script"], case["tail"])
     sc.real = opt.nonlinear_roots
     opt.nonlinear_roots = sc
-    h = dtype(case["h"])
+    h = val(case["h"], dtype)
     exc = None
     try:
         try:
@@ -308,6 +313,21 @@ def build_cases(ctx):
                             if ctx.quick and dname != "float64" and not (t == -1.5 and abs(h) == 0.0625):
                                 continue
                             cases.append(dict(section="split", method=M.__name__, dtype=dname, rhs=pn, shape=shp, mask=mk, t=t, h=h, seed=seed))
+    # beside the dyadic values: a start time and steps that are quotients formed in the working precision (1000/3, +-1/10: not representable in a lower
+    # precision, so anything that passes the time through a narrower type on its way to the right-hand side shows), time-dependent programs
+    for M in rk:
+        for dname in DTYPES:
+            for (pn, shp) in (("linear_t", [3]), ("tanh_net", [3])):
+                for h in ([1, 10], [-1, 10]):
+                    if ctx.quick and M.__name__ == "RadauIIA19" and (dname != "float64" or pn != "linear_t"):
+                        continue
+                    cases.append(dict(section="rk", method=M.__name__, dtype=dname, rhs=pn, shape=shp, t=[1000, 3], h=h, seed=seed))
+    for M in sp:
+        for dname in DTYPES:
+            for pn, shp, masks in [("tanh_net", [4], ["default", "0101"]), ("linear_t", [6], ["default", "010101", "000111"])]:
+                for mk in masks:
+                    for h in ([1, 10], [-1, 10]):
+                        cases.append(dict(section="split", method=M.__name__, dtype=dname, rhs=pn, shape=shp, mask=mk, t=[1000, 3], h=h, seed=seed))
     impl = [M for M in rk if M in I.implicit_methods()]
     maxlen = 3 if ctx.quick else 4
     scripts = [""]
